@@ -193,6 +193,20 @@ func runC11(res *Result, tier string, seed int64, replay string) {
 				}
 			}
 		}
+		// an mj-font that restates a built-in font's own URL, with other built-in fonts used before and after it in the body (the
+		// default Ubuntu stack of text / button, a font on a navbar link only): every one of them must still be imported
+		for bi, b := range []string{"Roboto", "Lato", "Open Sans", "Montserrat"} {
+			other := []string{"Lato", "Montserrat", "Roboto", "Open Sans"}[bi]
+			decl := `<mj-font name="` + b + `" href="` + fonts.GoogleFontsMapping[b] + `"/>`
+			for oi, body := range []string{
+				`<mj-text font-family="` + b + `">first</mj-text><mj-text>default stack</mj-text>`,
+				`<mj-text>default stack</mj-text><mj-text font-family="` + b + `">later</mj-text>`,
+				`<mj-text font-family="` + b + `">first</mj-text><mj-navbar><mj-navbar-link href="/a" font-family="` + other + `">A</mj-navbar-link></mj-navbar>`,
+				`<mj-button href="u" font-family="` + other + `">b</mj-button><mj-text font-family="` + b + `">t</mj-text><mj-text font-family="` + other + `, ` + b + `">both</mj-text>`,
+			} {
+				docs = append(docs, doc{fmt.Sprintf("mj-font-builtin-url/%d/%d", bi, oi), `<mjml><mj-head>` + decl + `</mj-head><mj-body><mj-section><mj-column>` + body + `</mj-column></mj-section></mj-body></mjml>`})
+			}
+		}
 		// every component with every one of its attributes set (one at a time; pairs at the thorough tier): classes, ids, fonts and
 		// component CSS must stay in step whatever markup path the attribute selects
 		for _, ld := range attrSweepDocs() {
